@@ -142,8 +142,9 @@ class Machine:
             elif k == "store":
                 op = v(n.body[1])
                 a_ = self.rd(int(v(n.body[2]))) + int(v(n.body[4]))
+                w_ = {"sb": 1, "sh": 2}.get(op, 4)
                 for act in self.acts[1:]:
-                    if 0 <= ((a_ - act["s0"][2]) & M32) < (1 << 22) or 0 <= ((a_ + 3 - act["s0"][2]) & M32) < (1 << 22):
+                    if 0 <= ((a_ - act["s0"][2]) & M32) < (1 << 22) or 0 <= ((a_ + w_ - 1 - act["s0"][2]) & M32) < (1 << 22):
                         act["wrote_above"] = True
                 self.store(a_, self.rd(int(v(n.body[3]))) & M32, {"sb": 1, "sh": 2}.get(op, 4))
             elif k == "branch":
